@@ -362,7 +362,44 @@ def _run(ctx):
                 ctx.fail("R3", f"formula({text!r}, {sorted(kw_)[0]}=...) keeps {attr}", f"the result has no {attr}", fsite(ctx, "formulas.formula"))
             else:
                 eq(ctx, "R3", f"formula({text!r}, {sorted(kw_)[0]}=...) keeps {attr}", I.getattr(fk, attr), want, fsite(ctx, "formulas.formula"))
-    ctx.floor("R3", 42)
+    # a mixture string means its mixture every time it is read: editing an earlier result (the guide sets densities of
+    # mixtures explicitly) does not show in a later reading, nor in a mixture that names the same string as a component
+    for text in ("30vol% NaCl@2 // H2O@1", "5g NaCl@2 // 50mL H2O@1"):
+        m1 = I.call(fm, [text], {"table": w.table})
+        d1, mf1 = I.getattr(m1, "density"), dict(I.getattr(m1, "mass_fraction"))
+        I.setattr(m1, "density", sp.Integer(77))
+        I.call(I.getattr(m1, "__iadd__"), [I.call(fm, [{H: sp.Integer(40)}], {})], {})
+        m2 = I.call(fm, [text], {"table": w.table})
+        ctx.check(m2 is not m1, "R3", f"formula({text!r}) read twice gives two objects", "the object handed out before is returned again",
+                  fsite(ctx, "formulas.formula"), witness=text)
+        eq(ctx, "R3", f"{text!r} read again after the first result was edited: density", I.getattr(m2, "density"), d1, fsite(ctx, "formulas.formula"))
+        mf2 = I.getattr(m2, "mass_fraction")
+        ctx.check(set(mf2) == set(mf1), "R3", f"{text!r} read again after the first result was extended: same atoms",
+                  "the += on the earlier result shows in the later reading", fsite(ctx, "formulas.formula"), witness=text)
+    # every spelling of the percentage basis that the grammar accepts means its own basis: w(eigh)t / m(ass) are by weight,
+    # v(ol(ume)) is by volume, with the sign before or after the word
+    mixers = {"weight": I.global_name("formulas", "mix_by_weight"), "volume": I.global_name("formulas", "mix_by_volume")}
+    ref = {b_: I.call(fn_, ["Fe2O3@5", sp.Integer(10), "NaCl@2", sp.Integer(15), "H2O@1", sp.Integer(75)], {"table": w.table})
+           for b_, fn_ in mixers.items()}
+    nsp = 0
+    for word, basis in (("wt", "weight"), ("weight", "weight"), ("w", "weight"), ("mass", "weight"), ("m", "weight"),
+                        ("vol", "volume"), ("volume", "volume"), ("v", "volume")):
+        for first in (f"10{word}% ", f"10%{word} ", f"10 {word}% "):
+            for later in ("15% ", f"15{word}% "):
+                text = first + "Fe2O3@5 // " + later + "NaCl@2 // H2O@1"
+                if raises(lambda: I.call(fm, [text], {"table": w.table})) is not None:
+                    if word in ("wt", "vol"):
+                        ctx.fail("R3", f"the documented spelling {text!r} is accepted", "raises", fsite(ctx, "formulas.formula_grammar"), witness=text)
+                    continue              # a spelling the grammar does not accept has no meaning to check
+                got_ = I.call(fm, [text], {"table": w.table})
+                nsp += 1
+                okm = algebra.equal(I.getattr(got_, "mass_fraction")[Fe], I.getattr(ref[basis], "mass_fraction")[Fe], seed=ctx.seed, points=4)[0] \
+                    and algebra.equal(I.getattr(got_, "density"), I.getattr(ref[basis], "density"), seed=ctx.seed, points=4)[0]
+                if not okm:
+                    ctx.fail("R3", f"{text!r} is the mixture by {basis}", f"the spelling '{word}' is not read as a percentage by {basis}",
+                             fsite(ctx, "formulas.formula_grammar"), witness=text)
+    ctx.check(nsp >= 12, "R3", "the percentage spellings accepted by the grammar were read", f"only {nsp} spellings accepted", fsite(ctx, "formulas.formula_grammar"))
+    ctx.floor("R3", 49)
 
     # ---- R4 attributes read on formulas in the actions are written somewhere -------
     written = set()
